@@ -21,14 +21,18 @@ HEADER = r'''
 #ifndef VF_ASM2C_H
 #define VF_ASM2C_H
 #include <stdint.h>
-#ifdef VF_MUL_UF
-/* symbolic x symbolic 64x64 products as uninterpreted functions (symmetric) */
+#if defined(VF_MUL_UF) && defined(VF_CBMC)
+/* symbolic x symbolic 64x64 products as uninterpreted functions (symmetric).
+   The only facts assumed about the product are true of the real one:
+   a*b <= (2^64-1)^2, i.e. hi <= 2^64-2 and (hi == 2^64-2 => lo <= 1) */
 uint64_t __CPROVER_uninterpreted_mullo(uint64_t, uint64_t);
 uint64_t __CPROVER_uninterpreted_mulhi(uint64_t, uint64_t);
 # define VF_MUL64(a, b, lo, hi) do { uint64_t vf_ma = (a), vf_mb = (b); \
     uint64_t vf_mx = vf_ma <= vf_mb ? vf_ma : vf_mb, vf_my = vf_ma <= vf_mb ? vf_mb : vf_ma; \
-    (lo) = __CPROVER_uninterpreted_mullo(vf_mx, vf_my); \
-    (hi) = __CPROVER_uninterpreted_mulhi(vf_mx, vf_my); } while (0)
+    uint64_t vf_ml = __CPROVER_uninterpreted_mullo(vf_mx, vf_my); \
+    uint64_t vf_mh = __CPROVER_uninterpreted_mulhi(vf_mx, vf_my); \
+    __CPROVER_assume(vf_mh < 0xFFFFFFFFFFFFFFFEULL || (vf_mh == 0xFFFFFFFFFFFFFFFEULL && vf_ml <= 1)); \
+    (lo) = vf_ml; (hi) = vf_mh; } while (0)
 #else
 # define VF_MUL64(a, b, lo, hi) do { unsigned __int128 vf_mt = \
     (unsigned __int128) (uint64_t) (a) * (uint64_t) (b); \
